@@ -469,6 +469,13 @@ func (s *InMemoryStore) DeleteTopic(ctx context.Context, name string) error {
 			delete(s.offsets, key)
 		}
 	}
+	// Committed consumer offsets of the topic go with it, as in the etcd store.
+	for key := range s.consumerOffsets {
+		if _, topic, _, ok := parseConsumerKey(key); ok && topic == name {
+			delete(s.consumerOffsets, key)
+			delete(s.consumerMeta, key)
+		}
+	}
 	return nil
 }
 
